@@ -27,6 +27,7 @@ func init() {
 			{ID: "C14-R2", Title: "import opcodes and importModule have a single producer chain", Floor: 4, Run: c14r2},
 			{ID: "C14-R3", Title: "importer joins the validated name under its root", Floor: 2, Run: c14r3},
 			{ID: "C14-R4", Title: "module cache: miss-then-import, register after the body ran", Floor: 3, Run: c14r4},
+			{ID: "C14-R5", Title: "a code object's globals array is installed at creation and never replaced", Floor: 2, Run: c14r5},
 		},
 	})
 }
@@ -597,4 +598,133 @@ func mapStoredToModules(sf *ssa.Function, m ssa.Value, idx int, vmT *types.Named
 		}
 	}
 	return false
+}
+
+// freshObject: v is an object allocated in this activation (new/composite
+// literal, or the result of a repository function all of whose results are).
+func freshObject(p *core.Program, v ssa.Value, depth int) bool {
+	if depth > 3 {
+		return false
+	}
+	ok := true
+	n := 0
+	for _, o := range core.Origins(v) {
+		n++
+		switch x := o.(type) {
+		case *ssa.Alloc:
+			if !x.Heap {
+				ok = false
+			}
+		case *ssa.Call:
+			cal := x.Call.StaticCallee()
+			if cal == nil || !core.RepoFunc(cal) || cal.Blocks == nil {
+				ok = false
+				break
+			}
+			for _, b := range cal.Blocks {
+				for _, in := range b.Instrs {
+					if r, isR := in.(*ssa.Return); isR && len(r.Results) >= 1 {
+						if !freshObject(p, spilledResult(b, r.Results[0]), depth+1) {
+							ok = false
+						}
+					}
+				}
+			}
+		default:
+			ok = false
+		}
+	}
+	return ok && n > 0
+}
+
+// c14r5: the globals array of a loaded code object is installed when the object
+// is created and never replaced.  Functions of a module are bound to the array
+// of the code object they were loaded under; giving that object a new array
+// later (for a "clean" re-import) splits the module's state between the
+// functions loaded before and everything loaded after.
+func c14r5(c *core.Ctx) {
+	p := c.P
+	vmp := p.Pkg("vm")
+	codeT := core.MustType(vmp, "code")
+	gf := fieldByName(codeT, "Globals")
+	if gf == nil {
+		core.Undecidedf("vm.code.Globals not found")
+	}
+	cg := p.CallGraph()
+	n := 0
+	for fn := range p.AllFunctions() {
+		if fn.Blocks == nil || fn.Pkg == nil || fn.Pkg.Pkg != vmp.Types {
+			continue
+		}
+		for _, b := range fn.Blocks {
+			for _, in := range b.Instrs {
+				st, ok := in.(*ssa.Store)
+				if !ok {
+					continue
+				}
+				fa, ok := st.Addr.(*ssa.FieldAddr)
+				if !ok || fieldVar(fa) != gf {
+					continue
+				}
+				n++
+				why := ""
+				var judge func(base ssa.Value, f *ssa.Function, depth int) bool
+				judge = func(base ssa.Value, f *ssa.Function, depth int) bool {
+					if freshObject(p, base, 0) {
+						return true
+					}
+					prm, isP := base.(*ssa.Parameter)
+					if !isP || depth > 2 {
+						why = "the object is not created in " + f.Name()
+						return false
+					}
+					idx := -1
+					for i, q := range f.Params {
+						if q == prm {
+							idx = i
+						}
+					}
+					nd := cg.Nodes[f]
+					if idx < 0 || nd == nil || len(nd.In) == 0 {
+						why = "no caller passes a fresh object"
+						return false
+					}
+					for _, e := range nd.In {
+						args := e.Site.Common().Args
+						if e.Site.Common().IsInvoke() || idx >= len(args) {
+							why = "dynamic call"
+							return false
+						}
+						if !judge(args[idx], e.Caller.Func, depth+1) {
+							if why == "" || why[:3] != "cal" {
+								why = "caller " + e.Caller.Func.Name() + " passes an existing code object (" + p.Pos(e.Site.Pos()) + ")"
+							}
+							return false
+						}
+					}
+					return true
+				}
+				ok2 := judge(fa.X, fn, 0)
+				// sharing: the value is the globals array of another code object (a child
+				// takes its root's array; after a reload every child is re-pointed to the
+				// new root's array)
+				shares := true
+				for _, o := range core.Origins(st.Val) {
+					u, isLoad := o.(*ssa.UnOp)
+					if !isLoad || u.Op != token.MUL {
+						shares = false
+						continue
+					}
+					fa2, isFA := u.X.(*ssa.FieldAddr)
+					if !isFA || fieldVar(fa2) != gf {
+						shares = false
+					}
+				}
+				ok2 = ok2 || shares
+				c.Check(ok2, core.SSAName(fn)+"|Globals-installed-at-creation", p.Pos(st.Pos()),
+					"the globals array of a code object is assigned while the object is being created, or is the array of another code object (sharing its root's array); it is never replaced by a new array of its own"+ifs(!ok2, ": "+why))
+			}
+		}
+	}
+	c.Stat("globals_stores", n)
 }
